@@ -221,6 +221,39 @@ def run_case(case: dict[str, Any]) -> dict[str, Any]:
                         and (res.functions.constraints is None
                              or np.array_equal(alone.functions.constraints, res.functions.constraints, equal_nan=True)))
             check(same, "batch-layout", "value at x differs between a single evaluation and a batch position", case)
+    # metamorphic 3: what an EnsembleEvaluator object evaluated before (and which realizations failed then) does not matter
+    if case.get("later_nans") is not None:
+        case3 = dict(case, nans=[tuple(t) for t in case["later_nans"]], pert_nans=[])
+        _, ev3 = build(case3)
+        ev.fail = ev3.fail
+        for x in rows:
+            outcomes = []
+            for obj in (ens, EnsembleEvaluator(cfg, None, build(case3)[1], _MANAGER)):
+                try:
+                    (one,) = obj.calculate(x, compute_functions=True, compute_gradients=False)
+                except OptimizationAborted as exc:
+                    one = exc.exit_code
+                outcomes.append(one)
+            used, fresh = outcomes
+            same = isinstance(used, OptimizerExitCode) == isinstance(fresh, OptimizerExitCode)
+            if same and isinstance(used, OptimizerExitCode):
+                same = used == fresh
+            elif same:
+                same = (used.functions is None) == (fresh.functions is None) and bool(np.array_equal(
+                    np.asarray(used.realizations.failed_realizations), np.asarray(fresh.realizations.failed_realizations)))
+                if same and used.functions is not None:
+                    same = (np.array_equal(used.functions.objectives, fresh.functions.objectives, equal_nan=True)
+                            and np.array_equal(used.functions.weighted_objective, fresh.functions.weighted_objective, equal_nan=True)
+                            and (fresh.functions.constraints is None
+                                 or np.array_equal(used.functions.constraints, fresh.functions.constraints, equal_nan=True)))
+                for name in ("objective_weights", "constraint_weights"):
+                    w_u, w_f = getattr(used.realizations, name), getattr(fresh.realizations, name)
+                    same = same and (w_u is None) == (w_f is None) and (w_u is None or bool(np.array_equal(w_u, w_f, equal_nan=True)))
+            check(same, "history-dependent",
+                  f"an evaluator object that had handled an evaluation with failures {case['nans']} reports for the next evaluation at "
+                  f"{x.tolist()} (failures {case['later_nans']}) something else than a fresh evaluator object does", case)
+            if not isinstance(used, OptimizerExitCode):
+                oracle_one(case3, cfg, used, x, ev)
     # metamorphic 2: values of an unrelated function do not matter
     if case.get("meta_col") is not None:
         col = case["meta_col"] % (case["K"] + case["C"])
@@ -319,6 +352,9 @@ def hypothesis_shard(item: dict[str, Any]) -> Collector:
         case["single"] = b_n == 1 and draw(st.booleans())
         case["meta_col"] = draw(st.integers(0, 5)) if draw(st.booleans()) else None
         case["combined"] = draw(st.booleans())
+        if draw(st.integers(0, 2)) == 0:  # a later evaluation by the same evaluator object, with other (mostly no) failures
+            case["later_nans"] = sorted({(draw(st.integers(0, r_n - 1)), draw(st.integers(0, k_n + c_n - 1)))
+                                         for _ in range(draw(st.sampled_from([0, 0, 0, 1, 2])))})
         case["pmin"] = draw(st.integers(1, 2))
         case["pert_nans"] = sorted({(draw(st.integers(0, r_n - 1)), draw(st.integers(0, 1))) for _ in range(draw(st.sampled_from([0, 0, 1, 2, 3])))})
         return case
@@ -338,7 +374,8 @@ def hypothesis_shard(item: dict[str, Any]) -> Collector:
         col.case(case, nontrivial=nontrivial, classes=(
             "aborted" if info["aborted"] else "value", f"filters={len(case['filters'])}", "mixed-map" if mixed else "plain-map",
             "failures" if failed else "no-failures", "batch" if not case["single"] else "single",
-            "nonuniform" if len(set(w)) > 1 else "uniform", "two-estimators" if len(used_est) > 1 else "one-estimator"))
+            "nonuniform" if len(set(w)) > 1 else "uniform", "two-estimators" if len(used_est) > 1 else "one-estimator",
+            "reused-evaluator-object" if case.get("later_nans") is not None else "fresh-evaluator-object"))
 
     run_hypothesis(col, cases(), body, seed=item["seed"], max_examples=item["examples"])
     return col
